@@ -3,10 +3,10 @@
        agent C05's conversion theorems (Proofs/ConvertP.v: the chain invariant [inv], to_coo_inv,
        inv_facts, conversion_chain_den_partial_proof);
    (b) programs with in-place / out= steps over a store of objects, on top of C11's
-       out_swap_only_target (Props/C11.v) and of astype_object_spec. *)
+       out_swap_only_target (Proofs/AliasP.v, stated in Props/C11.v) and of astype_object_spec. *)
 From Coq Require Import ZArith List Bool Lia Arith Sorting.Sorted Sorting.Permutation.
 From Verif Require Import Py Shape COO COOP GCXS NpElemwise S_umath Elemwise ElemwiseP ElemwiseBcastP ElemwiseGenP.
-From Verif Require Import Alias Convert ConvertP C11 ElemwiseApi.
+From Verif Require Import Alias AliasP Convert ConvertP ElemwiseApi.
 Import ListNotations.
 Open Scope Z_scope.
 
@@ -278,7 +278,7 @@ Section StoreP.
       destruct (list_eq_dec Z.eq_dec (op_shape V a) (op_shape V olda)) as [_|Hne]; [|congruence].
       eexists. split; [reflexivity|]. unfold R. simpl. rewrite Hn. split; [first [exact He|reflexivity]|]. split; [reflexivity|].
       split; [intros o Ho; specialize (Hlt o Ho); lia|].
-      intros i. destruct (out_swap_only_target _ (put V (s_heap V st) (d_next dst) a) ot (d_next dst)) as [Sw1 Sw2].
+      intros i. destruct (out_swap_only_target_proof _ (put V (s_heap V st) (d_next dst) a) ot (d_next dst)) as [Sw1 Sw2].
       unfold dput at 1. destruct (Nat.eqb_spec i ot) as [->|Hi].
       + rewrite Sw1. unfold put. rewrite Nat.eqb_refl. simpl. auto.
       + rewrite (Sw2 i Hi). apply rel_obj_put; [exact Hh|simpl; auto].
